@@ -26,7 +26,7 @@ CONSTANTS
   MaxDepth = 2
   MaxNodes = {nodes}
   FixArchiveAncestors = TRUE
-  DirLists = {{{{"x"}}, {{"x", "y"}}, {{""}}}}
+  DirLists = {{{{"x"}}, {{"x", "y"}}, {{""}}, {{}}}}
 INVARIANT Emit
 CHECK_DEADLOCK FALSE
 """)
